@@ -242,6 +242,280 @@ static void do_fpregion(const J& g, W& w) {
     free_polys(out);
 }
 
+// ------------------------------------------------------------------ RobustPath
+static Interpolation mk_ip(const J& ip, double prev_unused) {
+    (void)prev_unused;
+    Interpolation r = {};
+    const std::string& t = ip["t"].s();
+    if (t == "constant") {
+        r.type = InterpolationType::Constant;
+        r.value = (double)ip["a"].i() / 1000.0;
+    } else if (t == "linear" || t == "smooth") {
+        r.type = t == "linear" ? InterpolationType::Linear : InterpolationType::Smooth;
+        r.initial_value = (double)ip["a"].i() / 1000.0;
+        r.final_value = (double)ip["b"].i() / 1000.0;
+    }
+    return r;
+}
+
+static void robust_call(RobustPath& r, const J& s, const Interpolation* W_, const Interpolation* O_) {
+    const std::string& k = s["k"].s();
+    bool rel = s["rel"].t();
+    if (k == "segment") r.segment(jp(s["p"]), W_, O_, rel);
+    else if (k == "horizontal") r.horizontal((double)s["x"].i(), W_, O_, rel);
+    else if (k == "vertical") r.vertical((double)s["y"].i(), W_, O_, rel);
+    else if (k == "cubic") r.cubic(jp(s["c1"]), jp(s["c2"]), jp(s["e"]), W_, O_, rel);
+    else if (k == "cubic_smooth") r.cubic_smooth(jp(s["c2"]), jp(s["e"]), W_, O_, rel);
+    else if (k == "quadratic") r.quadratic(jp(s["c"]), jp(s["e"]), W_, O_, rel);
+    else if (k == "quadratic_smooth") r.quadratic_smooth(jp(s["e"]), W_, O_, rel);
+    else if (k == "bezier") {
+        Array<Vec2> pts = {};
+        for (size_t i = 0; i < s["pts"].size(); i++) pts.append(jp(s["pts"][i]));
+        r.bezier(pts, W_, O_, rel);
+        pts.clear();
+    } else if (k == "arc")
+        r.arc((double)s["rx"].i(), (double)s["ry"].i(), deg(s["a0"].i()), deg(s["a1"].i()), deg(s["rot"].i()), W_, O_);
+    else if (k == "turn") r.turn((double)s["r"].i(), deg(s["a"].i()), W_, O_);
+    else if (k == "parametric") r.parametric(wave, NULL, NULL, NULL, W_, O_, rel);
+    else if (k == "interpolation") {
+        size_t np = s["pts"].size();
+        Array<Vec2> pts = {};
+        for (size_t i = 0; i < np; i++) pts.append(jp(s["pts"][i]));
+        std::vector<double> angles(np + 1, 0.0);
+        std::vector<char> cons(np + 1, 0);
+        std::vector<Vec2> tens(np + 1, Vec2{1, 1});
+        r.interpolation(pts, angles.data(), (bool*)cons.data(), tens.data(), 1, 1, false, W_, O_, rel);
+        pts.clear();
+    }
+}
+
+static void do_rpbook(const J& g, W& w) {
+    uint64_t nel = (uint64_t)g["nel"].i();
+    std::vector<double> w0(nel, 0.3), o0(nel);
+    std::vector<Tag> tags(nel);
+    for (uint64_t i = 0; i < nel; i++) {
+        o0[i] = 0.125 * (double)i;
+        tags[i] = make_tag((uint32_t)i, 0);
+    }
+    RobustPath r = {};
+    r.init(Vec2{0, 0}, nel, w0.data(), o0.data(), 0.01, 1000, tags.data());
+    w.key("steps").begin_arr();
+    for (size_t ci = 0; ci < g["calls"].size(); ci++) {
+        const J& c = g["calls"][ci];
+        g_shared->phase = (int64_t)ci;
+        std::vector<Interpolation> wi(nel), oi(nel);
+        for (uint64_t i = 0; i < nel; i++) {
+            wi[i] = mk_ip(c["w"], 0);
+            oi[i] = mk_ip(c["o"], 0);
+        }
+        uint64_t n0 = r.subpath_array.count;
+        robust_call(r, c["sec"], c["w"]["t"].s() == "none" ? NULL : wi.data(),
+                    c["o"]["t"].s() == "none" ? NULL : oi.data());
+        bool ok = true;
+        uint64_t n1 = r.subpath_array.count;
+        w.begin_obj().kv("nsec", (int64_t)n1).kv("added", (int64_t)(n1 - n0));
+        w.key("end3").begin_arr().i(lat(r.end_point.x, 3, ok)).i(lat(r.end_point.y, 3, ok)).end_arr();
+        w.kb("end_exact", ok);
+        ok = true;
+        w.key("els").begin_arr();
+        for (uint64_t e = 0; e < nel; e++)
+            w.begin_obj().kv("nw", (int64_t)r.elements[e].width_array.count)
+                .kv("no", (int64_t)r.elements[e].offset_array.count)
+                .kv("end_w", lat(r.elements[e].end_width, 1000, ok))
+                .kv("end_o", lat(r.elements[e].end_offset, 1000, ok)).end_obj();
+        w.end_arr();
+        // queries on the last section: width / offset at u = n1-1, n1-1/2, n1 (x2000), positions
+        w.key("wq").begin_arr();
+        std::vector<double> res(nel);
+        for (int h = 0; h <= 2; h++) {
+            r.width((double)(n1 - 1) + 0.5 * h, h == 0 ? false : true, res.data());
+            w.begin_arr();
+            for (uint64_t e = 0; e < nel; e++) w.i(lat(res[e], 2000, ok));
+            w.end_arr();
+        }
+        w.end_arr();
+        w.key("oq").begin_arr();
+        for (int h = 0; h <= 2; h++) {
+            r.offset((double)(n1 - 1) + 0.5 * h, h == 0 ? false : true, res.data());
+            w.begin_arr();
+            for (uint64_t e = 0; e < nel; e++) w.i(lat(res[e], 2000, ok));
+            w.end_arr();
+        }
+        w.end_arr();
+        // adjacent sections meet: position(k) from below and from above coincide, and position(n)
+        // is the end point
+        double gap = 0;
+        for (uint64_t k = 1; k < n1; k++) gap = fmax(gap, (r.position((double)k, true) - r.position((double)k, false)).length());
+        gap = fmax(gap, (r.position((double)n1, true) - r.end_point).length());
+        w.kv("gap_nano", (int64_t)fmin(ceil(gap / 1e-9), 2e9)).kb("lat", ok);
+        w.end_obj();
+    }
+    w.end_arr();
+    Array<Polygon*> out = {};
+    ErrorCode e = r.to_polygons(false, 0, out);
+    bool fin = true;
+    for (uint64_t i = 0; i < out.count; i++)
+        for (uint64_t k = 0; k < out[i]->point_array.count; k++)
+            if (!std::isfinite(out[i]->point_array[k].x) || !std::isfinite(out[i]->point_array[k].y)) fin = false;
+    w.key("final").begin_obj().kv("err", (int64_t)e).kv("npoly", (int64_t)out.count).kb("finite", fin).end_obj();
+    free_polys(out);
+}
+
+static void do_rpxform(const J& g, W& w) {
+    RobustPath r = {};
+    double w0 = 0.4, o0 = 0;
+    Tag t = 0;
+    r.init(Vec2{0, 0}, 1, &w0, &o0, 0.001, 1000, &t);
+    robust_call(r, g["first"], NULL, NULL);
+    const J& x = g["xf"];
+    const std::string& op = x["op"].s();
+    if (op == "rotate") r.rotate(deg(x["deg"].i()), Vec2{0, 0});
+    else if (op == "translate") r.translate(jp(x["v"]));
+    else if (op == "scale") r.scale((double)x["s"].i(), Vec2{0, 0});
+    else if (op == "mirror") r.mirror(jp(x["p0"]), jp(x["p1"]));
+    robust_call(r, g["second"], NULL, NULL);
+    // continuity at the joint, in the path's own (transformed) frame
+    Vec2 pb = r.position(1.0, true), pa = r.position(1.0, false);
+    Vec2 gb = r.gradient(1.0, true), ga = r.gradient(1.0, false);
+    double gap = (pb - pa).length();
+    double scale = fmax(1.0, fmax(pb.length(), pa.length()));
+    double sinang = fabs(gb.cross(ga)) / (gb.length() * ga.length() + 1e-300);
+    bool same_dir = gb.inner(ga) > 0;
+    w.kv("gap_nano", (int64_t)fmin(ceil(gap / (1e-9 * scale)), 2e9));
+    w.kv("kink_micro", (int64_t)fmin(ceil(sinang / 1e-6), 2e9)).kb("same_dir", same_dir);
+    Array<Polygon*> out = {};
+    ErrorCode e = r.to_polygons(false, 0, out);
+    w.kv("err", (int64_t)e).kv("npoly", (int64_t)out.count);
+    free_polys(out);
+}
+
+static void do_rpcmd(const J& g, W& w) {
+    RobustPath r = {};
+    double w0 = 0.4, o0 = 0;
+    Tag t = 0;
+    r.init(Vec2{0, 0}, 1, &w0, &o0, 0.001, 1000, &t);
+    std::vector<CurveInstruction> items;
+    std::string str = g["s"].s();
+    char* tok = strtok((char*)str.c_str(), " ");
+    char lastcmd = 0;
+    int argi = 0;
+    while (tok) {
+        CurveInstruction ci;
+        if (isalpha((unsigned char)tok[0])) {
+            ci.command = tok[0];
+            lastcmd = tok[0];
+            argi = 0;
+        } else {
+            double v = atof(tok);
+            if ((lastcmd == 'a' && argi == 1) || (lastcmd == 'A' && argi >= 1)) v = v * M_PI / 180.0;
+            ci.number = v;
+            argi++;
+        }
+        items.push_back(ci);
+        tok = strtok(NULL, " ");
+    }
+    uint64_t n = r.commands(items.data(), items.size());
+    bool ok = true;
+    w.kv("processed", (int64_t)n).kv("items", (int64_t)items.size());
+    w.key("end").begin_arr().i(lat(r.end_point.x, 1000, ok)).i(lat(r.end_point.y, 1000, ok)).end_arr();
+    w.kb("lat", ok).kv("nsec", (int64_t)r.subpath_array.count);
+}
+
+// exact centre curve of a (1-2 section) path for the measured clearance check
+struct Sec {
+    std::function<Vec2(double)> f, df;
+};
+static Sec sec_of(const J& s, Vec2 start, Vec2 prev_grad) {
+    const std::string& k = s["k"].s();
+    bool rel = s["rel"].t();
+    auto ab = [&](const J& p) { return rel ? start + jp(p) : jp(p); };
+    std::vector<Vec2> c;
+    if (k == "segment") c = {start, ab(s["p"])};
+    else if (k == "cubic") c = {start, ab(s["c1"]), ab(s["c2"]), ab(s["e"])};
+    else if (k == "cubic_smooth") c = {start, start + prev_grad * (1.0 / 3.0), ab(s["c2"]), ab(s["e"])};
+    if (!c.empty()) {
+        Sec r;
+        r.f = [c](double u) {
+            std::vector<Vec2> p = c;
+            for (size_t kk = 1; kk < c.size(); kk++)
+                for (size_t i = 0; i + kk < c.size(); i++) p[i] = p[i] * (1 - u) + p[i + 1] * u;
+            return p[0];
+        };
+        r.df = [c](double u) {
+            std::vector<Vec2> d;
+            for (size_t i = 0; i + 1 < c.size(); i++) d.push_back((c[i + 1] - c[i]) * (double)(c.size() - 1));
+            for (size_t kk = 1; kk < d.size(); kk++)
+                for (size_t i = 0; i + kk < d.size(); i++) d[i] = d[i] * (1 - u) + d[i + 1] * u;
+            return d[0];
+        };
+        return r;
+    }
+    // arc (no rotation): parameter angles directly
+    double rx = (double)s["rx"].i(), ry = (double)s["ry"].i(), a0 = deg(s["a0"].i()), a1 = deg(s["a1"].i());
+    Vec2 cen = start - Vec2{rx * cos(a0), ry * sin(a0)};
+    Sec r;
+    r.f = [=](double u) { double a = a0 + (a1 - a0) * u; return cen + Vec2{rx * cos(a), ry * sin(a)}; };
+    r.df = [=](double u) { double a = a0 + (a1 - a0) * u; return Vec2{-rx * sin(a), ry * cos(a)} * (a1 - a0); };
+    return r;
+}
+
+static void do_rpregion(const J& g, W& w) {
+    double tol = pow(10.0, -(double)g["tolk"].i());
+    double width = (double)g["w"].i() / 1000.0, off = (double)g["o"].i() / 1000.0;
+    RobustPath r = {};
+    Tag t = 0;
+    r.init(Vec2{0, 0}, 1, &width, &off, tol, 1000, &t);
+    std::vector<Sec> secs;
+    Vec2 start = {0, 0}, grad = {1, 0};
+    for (size_t i = 0; i < g["secs"].size(); i++) {
+        Sec s = sec_of(g["secs"][i], start, grad);
+        secs.push_back(s);
+        robust_call(r, g["secs"][i], NULL, NULL);
+        start = s.f(1.0);
+        grad = s.df(1.0);
+    }
+    r.elements[0].end_type = g["ends"].s() == "round" ? EndType::Round : EndType::Flush;
+    Array<Polygon*> out = {};
+    ErrorCode e = r.to_polygons(false, 0, out);
+    w.kv("err", (int64_t)e).kv("npoly", (int64_t)out.count);
+    // dense samples of the exact centre curve (spine displaced by the offset to the left)
+    std::vector<Vec2> cen;
+    const int M = 2000;
+    for (auto& s : secs)
+        for (int i = 0; i <= M; i++) {
+            double u = (double)i / M;
+            Vec2 d = s.df(u);
+            Vec2 n = Vec2{-d.y, d.x} * (1.0 / (d.length() + 1e-300));
+            cen.push_back(s.f(u) + n * off);
+        }
+    double hw = width / 2;
+    // classify sample points: signed clearance (distance to centre curve - half width) in
+    // milli-tolerances, whether the nearest centre point is an interior one, and membership
+    w.key("samples").begin_arr();
+    if (out.count == 1) {
+        for (int xi = -8; xi <= 56; xi++)
+            for (int yi = -16; yi <= 40; yi++) {
+                Vec2 q = {(2 * xi + 1) / 8.0, (2 * yi + 1) / 8.0};
+                double best = 1e300;
+                size_t bi = 0;
+                for (size_t i = 0; i < cen.size(); i++) {
+                    double d = (cen[i] - q).length_sq();
+                    if (d < best) {
+                        best = d;
+                        bi = i;
+                    }
+                }
+                double clr = sqrt(best) - hw;
+                if (fabs(clr) > 0.3) continue;  // only the band around the outline is informative
+                bool interior = bi > 5 && bi + 5 < cen.size();
+                int64_t cm = (int64_t)fmax(-1e6, fmin(1e6, clr >= 0 ? ceil(clr / (tol * 1e-3)) : floor(clr / (tol * 1e-3))));
+                w.begin_arr().i(inside_poly(out[0]->point_array, q) ? 1 : 0).i(cm).i(interior ? 1 : 0).end_arr();
+            }
+    }
+    w.end_arr();
+    free_polys(out);
+}
+
 int main(int argc, char** argv) {
     if (argc < 3) return 2;
     gdstk::set_error_logger(NULL);
@@ -254,6 +528,10 @@ int main(int argc, char** argv) {
         const std::string& k = g["k"].s();
         if (k == "fpbook") do_fpbook(g, w);
         else if (k == "fpregion") do_fpregion(g, w);
+        else if (k == "rpbook") do_rpbook(g, w);
+        else if (k == "rpxform") do_rpxform(g, w);
+        else if (k == "rpcmd") do_rpcmd(g, w);
+        else if (k == "rpregion") do_rpregion(g, w);
         w.end_obj();
         fputs(w.s.c_str(), out);
         fputc('\n', out);
